@@ -122,7 +122,7 @@ theorem StepKind.same {inp : RunInput} {s s' : Sys} {perm : List Name} (e : s'.n
     (e2 : s'.toRun = s.toRun) : StepKind inp s s' perm :=
   Or.inr (Or.inr (Or.inr ⟨BackG.of_eq e e2, Keeps.of_eq e⟩))
 
-theorem serialStep_kind {inp : RunInput} {s s' : Sys} {perm : List Name} (h2 : Inv2 inp s) (h3 : Inv3 inp s)
+theorem serialStep_kind {inp : RunInput} [NoFailDeliver inp] {s s' : Sys} {perm : List Name} (h2 : Inv2 inp s) (h3 : Inv3 inp s)
     (hs : serialStep inp s perm = some s') : StepKind inp s s' perm := by
   unfold serialStep at hs
   cases hr : s.rpc with
@@ -179,7 +179,7 @@ theorem serialStep_kind {inp : RunInput} {s s' : Sys} {perm : List Name} (h2 : I
   | pJoin => simp only [hr] at hs; cases hs
   | halted => simp only [hr] at hs; cases hs
 
-theorem mainStep_kind {inp : RunInput} {s s' : Sys} {perm : List Name} (h3 : Inv3 inp s)
+theorem mainStep_kind {inp : RunInput} [NoFailDeliver inp] {s s' : Sys} {perm : List Name} (h3 : Inv3 inp s)
     (hs : mainStep inp s perm = some s') : StepKind inp s s' perm := by
   unfold mainStep at hs
   cases hr : s.rpc with
@@ -279,7 +279,7 @@ theorem doneStep_nodes {s s' : Sys} {w : Nat} (hs : doneStep s w = some s') : s'
   | idle => simp only [hw] at hs; cases hs
   | exited => simp only [hw] at hs; cases hs
 
-theorem reach_invP2 {inp : RunInput} {s : Sys} (hnc : NoCalc inp) (h : Reach inp s) : InvP2 inp s := by
+theorem reach_invP2 {inp : RunInput} [NoFailDeliver inp] {s : Sys} (hnc : NoCalc inp) (h : Reach inp s) : InvP2 inp s := by
   induction h with
   | init => intro n nd hn; simp [init] at hn
   | @next s0 s1 c hr hs ih =>
@@ -290,7 +290,7 @@ theorem reach_invP2 {inp : RunInput} {s : Sys} (hnc : NoCalc inp) (h : Reach inp
     | take w => cases hs
     | done w => cases hs
 
-theorem preach_invP2 {inp : RunInput} {s : Sys} (hnc : NoCalc inp) (h : PReach inp s) : InvP2 inp s := by
+theorem preach_invP2 {inp : RunInput} [NoFailDeliver inp] {s : Sys} (hnc : NoCalc inp) (h : PReach inp s) : InvP2 inp s := by
   induction h with
   | init => intro n nd hn; simp [init] at hn
   | @next s0 s1 c hr hs ih =>
